@@ -16,8 +16,11 @@ EXPLANATION = (
     'IN_Q_OVERFLOW edges no event is yielded before the loop header; (R4) the cursor `processed` only '
     'increases, by header + name length, exactly once per record and before the record can be yielded or '
     'skipped; padding NULs are stripped by a last-non-NUL search over the whole event.len name field before '
-    'the reference is formed, and the reference covers header + trimmed name. Exact decoding for all record '
-    'sequences and batchings is not decided.'
+    'the reference is formed, and the reference covers header + trimmed name. (R5) the wd -> path table: '
+    'stored under the wd inotify_add_watch returned, with the path given to it; path_for joins the path looked '
+    "up by the event's wd with the event's name; (R6) event accessors and Interest constants name the "
+    'inotify(7) bits of <linux/inotify.h>. Exact decoding for all record sequences and batchings is not '
+    'decided.'
 )
 NOT_DECIDED = "exact decoding for all record sequences and batchings"
 ASSUMPTIONS = ["the kernel writes whole inotify_event records (inotify(7))"]
